@@ -1,11 +1,7 @@
 import TrimeshVerif.Model.Cache
 /-
-Helper lemmas for C01 (hash-validated cache).
-
-NOTE: `Coherent` is *not* preserved by a `MutSound` mutator with `setsId = false` whose `apply` changes the
-data (the kept values are values on the new data, `idCur` still names the old data); a later `edit` back to
-the old data then makes the stale entries pass `verify`.  The lemmas below therefore carry the extra
-hypothesis `m.keep = [] ∨ m.setsId = true` (`MutSoundId`, `OpsSoundId`).
+Helper lemmas for C01 (hash-validated cache): `Coherent` holds initially and is preserved by `verify`,
+`read`, `edit` and every `MutSound` mutator; a read on a coherent state is fresh.
 -/
 namespace TV.Cache
 
@@ -92,49 +88,31 @@ theorem coherent_mutate_keep_nil (f : String → D → V) (m : Mutator D V) (s :
   rw [hc] at he
   cases he
 
-/-- `MutSound` strengthened by what `Coherent` actually needs: a mutator that keeps something must also
-    re-anchor `idCur` on the changed data -/
-def MutSoundId (f : String → D → V) (m : Mutator D V) : Prop :=
-  MutSound f m ∧ (m.keep = [] ∨ m.setsId = true)
-
 theorem coherent_mutate {f : String → D → V} {s : St D V} {m : Mutator D V} (h : Coherent f s)
-    (hm : MutSoundId f m) : Coherent f (mutate m s) := by
-  obtain ⟨hm, hid⟩ := hm
+    (hm : MutSound f m) : Coherent f (mutate m s) := by
   rcases hm with hk | ⟨hv, ht⟩
   · exact coherent_mutate_keep_nil f m s hk
-  · rcases hid with hk | hid
-    · exact coherent_mutate_keep_nil f m s hk
-    · have hent := verify_entries h
-      unfold mutate
-      simp only [hv, hid, if_true]
-      refine ⟨by simp, ?_⟩
-      intro d0 hd0 e he
-      simp only [verify_data, Option.some.injEq] at hd0
-      subst hd0
+  · have hent := verify_entries h
+    unfold mutate
+    simp only [hv, if_true]
+    refine ⟨?_, ?_⟩
+    · cases m.setsId <;> simp
+    · intro d0 hd0 e he
       simp only [List.mem_map, List.mem_filter] at he
       obtain ⟨e0, ⟨he0, hkeep⟩, rfl⟩ := he
       have hmem : e0.1 ∈ m.keep := by simpa using hkeep
+      have ht' := ht s.data e0.1 hmem
       simp only [verify_data]
-      rw [hent e0 he0]
-      exact ht s.data e0.1 hmem
+      rw [hent e0 he0, ht']
+      cases hsi : m.setsId <;>
+        simp only [hsi, verify_data, verify_idCur, if_true, Bool.false_eq_true, if_false,
+          Option.some.injEq] at hd0 ⊢ <;> rw [hd0]
 
 /-! ### histories -/
 
-def OpsSoundId (f : String → D → V) : List (Op D V) → Prop
-  | [] => True
-  | .mutate m :: t => MutSoundId f m ∧ OpsSoundId f t
-  | _ :: t => OpsSoundId f t
-
-omit [DecidableEq D] in
-theorem OpsSoundId.opsSound {f : String → D → V} : ∀ {ops : List (Op D V)}, OpsSoundId f ops → OpsSound f ops
-  | [], _ => trivial
-  | .mutate _ :: _, h => ⟨h.1.1, OpsSoundId.opsSound h.2⟩
-  | .read _ :: t, h => OpsSoundId.opsSound (ops := t) h
-  | .edit _ :: t, h => OpsSoundId.opsSound (ops := t) h
-
 theorem coherent_step {f : String → D → V} {s : St D V} (op : Op D V) (h : Coherent f s)
     (hs : match op with
-      | .mutate m => MutSoundId f m
+      | .mutate m => MutSound f m
       | _ => True) : Coherent f (step f s op).2 := by
   cases op with
   | read k => exact coherent_read h k
@@ -142,22 +120,16 @@ theorem coherent_step {f : String → D → V} {s : St D V} (op : Op D V) (h : C
   | mutate m => exact coherent_mutate h hs
 
 theorem coherent_run {f : String → D → V} : ∀ (ops : List (Op D V)) (s : St D V), Coherent f s →
-    OpsSoundId f ops → Coherent f (run f s ops)
+    OpsSound f ops → Coherent f (run f s ops)
   | [], _, h, _ => h
   | .read k :: t, _, h, hs => coherent_run t _ (coherent_read h k) hs
   | .edit g :: t, _, h, hs => coherent_run t _ (coherent_edit h g) hs
   | .mutate _ :: t, _, h, hs => coherent_run t _ (coherent_mutate h hs.1) hs.2
 
-/-- every read is fresh after any history whose cache-keeping mutators are sound *and* re-anchor the id -/
-theorem read_fresh_of_opsSoundId (f : String → D → V) (d : D) (ops : List (Op D V))
-    (hs : OpsSoundId f ops) (k : String) :
+/-- every read is fresh after any history whose cache-keeping mutators are sound -/
+theorem read_fresh (f : String → D → V) (d : D) (ops : List (Op D V))
+    (hs : OpsSound f ops) (k : String) :
     (read f (run f (St.init d) ops) k).1 = f k (run f (St.init d) ops).data :=
   read_fst_of_coherent (coherent_run ops _ (coherent_init f d) hs) k
-
-theorem history_independent_of_opsSoundId (f : String → D → V) (d d' : D) (ops ops' : List (Op D V))
-    (hs : OpsSoundId f ops) (hs' : OpsSoundId f ops')
-    (he : (run f (St.init d) ops).data = (run f (St.init d') ops').data) (k : String) :
-    (read f (run f (St.init d) ops) k).1 = (read f (run f (St.init d') ops') k).1 := by
-  rw [read_fresh_of_opsSoundId f d ops hs, read_fresh_of_opsSoundId f d' ops' hs', he]
 
 end TV.Cache
